@@ -55,7 +55,7 @@ def main():
     rnd = os.environ.get("VET_ROUND", "1")
     wt = f"/tmp/wt/{prop}" if rnd == "1" else f"/tmp/wt{rnd}/{prop}"
     src = f"/tmp/wt_out/{prop}/{x}" if rnd == "1" else f"/tmp/wt_out{rnd}/{prop}/{x}"
-    keep_as = x if rnd == "1" else {"a": "c", "b": "d"}.get(x, x) if rnd == "2" else x + rnd
+    keep_as = x if rnd == "1" else {"a": "c", "b": "d"}.get(x, x) if rnd == "2" else {"a": "e", "b": "f"}.get(x, x) if rnd == "3" else x + rnd
     patch, demo = os.path.join(src, "patch.diff"), os.path.join(src, "demo.py")
     env = dict(os.environ, PYTHONPATH=wt)
     rep = {"property": prop, "variant": x}
@@ -93,7 +93,7 @@ def main():
         shutil.copy(demo, os.path.join(dst, "demo.py"))
         notes = open(os.path.join(src, "notes.md")).read() if os.path.exists(os.path.join(src, "notes.md")) else ""
         caught = [l for l in rep["checks"] if l.startswith("caught_by=")]
-        meta = {"breaks_property": prop, "round": int(rnd), "origin": "independent sub-agent given only the property text and a scratch worktree" + (" (round 2: also told what the round-1 changes were, to produce different ones)" if rnd != "1" else ""),
+        meta = {"breaks_property": prop, "round": int(rnd), "origin": "independent sub-agent given only the property text and a scratch worktree" + (" (later rounds: also told what the earlier changes were, to produce different ones)" if rnd != "1" else ""),
                 "needs_to_manifest": notes, "confirmed_by": {
                     "worktree": wt, "demo_on_clean_tree_exit": rep["demo_clean"]["exit"], "demo_on_patched_tree_exit": rep["demo_patched"]["exit"],
                     "demo_output_patched": rep["demo_patched"]["tail"], "pinned_suite_with_patch": rep["suite_with_patch"]},
